@@ -169,3 +169,14 @@ def _f40(hist, mm):
 def _f41(hist, mm):
     ins = _cat_inputs(hist)
     return bool(ins) and all(st.get('kind') == 'wide' for st in ins) and any('cannot reshape' in m['what'] for m in mm)
+
+
+@signature('F24')
+def _f24(hist, mm):
+    """a dense input array holding a value below UNSEEN (or NaN): outside the HEALPix convention"""
+    if not any('does not reproduce' in m['what'] for m in mm):
+        return False
+    for st in hist:
+        if st.get('op') == 'fromhp' and any(isinstance(v, float) and v < -1.6e30 for v in st['values']):
+            return True
+    return False
